@@ -9,7 +9,9 @@ package main
 
 import (
 	"encoding/json"
+	"errors"
 	"fmt"
+	"math"
 	"reflect"
 	"sort"
 	"strings"
@@ -380,6 +382,8 @@ func bfsStore(deadline time.Time) *core.Stats {
 func genC14(tier string) []Scenario {
 	var out []Scenario
 	out = append(out, Scenario{Name: "store-bfs complete abstract state graph", Direct: bfsStore})
+	out = append(out, Scenario{Name: "store overwrite matrix: every ordered pair of a catalogue of values, by Set and by Merge, read back bit for bit", Direct: overwriteMatrix})
+	out = append(out, Scenario{Name: "store caller-owned map merged again after the caller changed it (histories over Merge(m), m[k]=v, delete(m,k), Set, Delete, Clear)", Direct: remergeHistories})
 	// raw sequences from the empty store (path-dependent state the abstract key could hide):
 	// the state reached is compared with the reference after EVERY step.
 	depth := 4
@@ -553,4 +557,167 @@ func (s *storeSys) observeLite(after string) {
 	if s.snapR != nil && !reflect.DeepEqual(s.snapR, s.snapM) {
 		s.fail("after %s: a snapshot handed out earlier changed", after)
 	}
+}
+
+// identical: the very same value — same dynamic type and, for floats, the same bits (0 and -0
+// differ, NaN equals itself); maps, pointers, slices, funcs by identity.  "Set overwrites" means the
+// store then holds THE value that was set, not one that compares equal to it.
+func identical(a, b any) bool {
+	if a == nil || b == nil {
+		return a == nil && b == nil
+	}
+	va, vb := reflect.ValueOf(a), reflect.ValueOf(b)
+	if va.Type() != vb.Type() {
+		return false
+	}
+	switch va.Kind() {
+	case reflect.Float32, reflect.Float64:
+		return math.Float64bits(va.Float()) == math.Float64bits(vb.Float())
+	case reflect.Map, reflect.Pointer, reflect.Func, reflect.Chan, reflect.UnsafePointer:
+		return va.Pointer() == vb.Pointer()
+	case reflect.Slice:
+		return va.Pointer() == vb.Pointer() && va.Len() == vb.Len()
+	}
+	return reflect.DeepEqual(a, b)
+}
+
+type owPoint struct{ X int }
+
+func overwriteCatalogue() []any {
+	one := 1
+	negZero := math.Copysign(0, -1)
+	return []any{nil, 0, 1, int64(0), int64(1), uint8(0), 0.0, negZero, float32(0), float32(negZero), 1.0, math.NaN(), math.Inf(1), "", "s", "0", false, true,
+		(*int)(nil), &one, &owPoint{}, owPoint{}, owPoint{X: 1}, map[string]any(nil), map[string]any{}, map[string]any{"a": 1}, []int(nil), []int{}, []int{0}, []any{nil},
+		flyt.Action(""), flyt.Action("s"), time.Duration(0), errors.New("e"), struct{}{}}
+}
+
+func overwriteMatrix(deadline time.Time) *core.Stats {
+	st := &core.Stats{ByCost: map[int]int64{}, Outcomes: map[string]int64{}}
+	cat := overwriteCatalogue()
+	complain := func(msg string) {
+		if len(st.Violations) < 10 {
+			st.Violations = append(st.Violations, core.Violation{Msgs: []string{msg}, Log: []string{msg}})
+		}
+	}
+	for i, v1 := range cat {
+		for j, v2 := range cat {
+			for route := 0; route < 4; route++ {
+				s := flyt.NewSharedStore()
+				label := ""
+				switch route {
+				case 0:
+					s.Set("k", v1)
+					s.Set("k", v2)
+					label = "Set, Set"
+				case 1:
+					s.Set("k", v1)
+					s.Merge(map[string]any{"k": v2})
+					label = "Set, Merge"
+				case 2:
+					s.Merge(map[string]any{"k": v1})
+					s.Set("k", v2)
+					label = "Merge, Set"
+				default:
+					s.Set("k", v1)
+					s.Delete("k")
+					s.Set("k", v2)
+					label = "Set, Delete, Set"
+				}
+				got, ok := s.Get("k")
+				if !ok || !identical(got, v2) {
+					complain(fmt.Sprintf("%s of %s then %s: Get returns %s (present=%v), a plain map holds the second value", label, describe(v1), describe(v2), describe(got), ok))
+				}
+				if all := s.GetAll(); len(all) != 1 || !identical(all["k"], v2) {
+					complain(fmt.Sprintf("%s of %s then %s: GetAll holds %s", label, describe(v1), describe(v2), describe(all["k"])))
+				}
+				st.Executions++
+				st.Transitions += 4
+			}
+			st.Outcomes[fmt.Sprintf("%d/%d", i, j)]++
+		}
+	}
+	st.TreeNodes = int64(len(cat) * len(cat))
+	st.ByCost[0] = st.Executions
+	st.SampleLog = []string{fmt.Sprintf("%d values (nil, ints, 0.0 / -0.0 / NaN, strings, typed nil and live pointers, nil / empty / filled maps and slices, named types, an error, struct{}) x the same x {Set-Set, Set-Merge, Merge-Set, Set-Delete-Set}", len(cat))}
+	return st
+}
+
+// remergeHistories: the caller keeps ONE map m of its own and interleaves changes to it with
+// Merge(m) and with direct store operations: all histories of length <= 5 over
+// {Merge(m), m[a]=1, m[a]=2, m[b]=1, delete(m,a), Set(a,9), Delete(a), Clear}.  After every step the
+// store equals the plain-map model (Merge copies what m holds AT THAT MOMENT; later changes to m do
+// not reach the store, store writes do not reach m).
+func remergeHistories(deadline time.Time) *core.Stats {
+	st := &core.Stats{ByCost: map[int]int64{}, Outcomes: map[string]int64{}}
+	const nops, depth = 8, 5
+	names := []string{"Merge(m)", "m[a]=1", "m[a]=2", "m[b]=1", "delete(m,a)", "Set(a,9)", "Delete(a)", "Clear"}
+	var rec func(hist []int)
+	run := func(hist []int) {
+		s := flyt.NewSharedStore()
+		model := map[string]any{}
+		m := map[string]any{}
+		mModel := map[string]any{}
+		var trace []string
+		for _, op := range hist {
+			trace = append(trace, names[op])
+			switch op {
+			case 0:
+				s.Merge(m)
+				for k, v := range mModel {
+					model[k] = v
+				}
+			case 1:
+				m["a"], mModel["a"] = 1, 1
+			case 2:
+				m["a"], mModel["a"] = 2, 2
+			case 3:
+				m["b"], mModel["b"] = 1, 1
+			case 4:
+				delete(m, "a")
+				delete(mModel, "a")
+			case 5:
+				s.Set("a", 9)
+				model["a"] = 9
+			case 6:
+				s.Delete("a")
+				delete(model, "a")
+			case 7:
+				s.Clear()
+				model = map[string]any{}
+			}
+			if all := s.GetAll(); !reflect.DeepEqual(all, model) && !(len(all) == 0 && len(model) == 0) {
+				if len(st.Violations) < 10 {
+					msg := fmt.Sprintf("after %s the store holds %v, a plain map holds %v", strings.Join(trace, "; "), all, model)
+					st.Violations = append(st.Violations, core.Violation{Msgs: []string{msg}, Log: trace})
+				}
+				break
+			}
+			if !reflect.DeepEqual(m, mModel) {
+				if len(st.Violations) < 10 {
+					msg := fmt.Sprintf("after %s the CALLER's map is %v, it put %v there (the store wrote into a map handed to Merge)", strings.Join(trace, "; "), m, mModel)
+					st.Violations = append(st.Violations, core.Violation{Msgs: []string{msg}, Log: trace})
+				}
+				break
+			}
+		}
+		st.Executions++
+		st.Transitions += int64(len(hist))
+		st.Outcomes[fmt.Sprint(model)]++
+	}
+	rec = func(hist []int) {
+		if len(hist) > 0 {
+			run(hist)
+			st.TreeNodes++
+		}
+		if len(hist) == depth {
+			return
+		}
+		for op := 0; op < nops; op++ {
+			rec(append(hist, op))
+		}
+	}
+	rec(nil)
+	st.ByCost[0] = st.Executions
+	st.SampleLog = []string{"m[a]=1; Merge(m); m[a]=2; Merge(m): the store holds a=2"}
+	return st
 }
